@@ -1,6 +1,7 @@
 import Driver.Proto
 import PolyVerif.Model.Solids
 import PolyVerif.Model.SolidsOracle
+import PolyVerif.Model.SolidsCode
 import PolyVerif.Gen.CubeTable
 
 /-
@@ -126,17 +127,17 @@ def modelPos (k : Kind) (sc : Array Float) : Option (Nat → V3 Float) :=
   | .sphere r c => some (uvSpherePos (sc.getD 0 nan) r c)
   | .sphereu r c => some (uvUnweldedPos (sc.getD 0 nan) r c)
   | .hemi r c => some (hemispherePos (sc.getD 0 nan) r c)
-  | .cyl s false false => some (cylinderPos (sc.getD 0 nan) (sc.getD 1 nan) s)
+  | .cyl s false false => some (cylinderPosCode (sc.getD 0 nan) (sc.getD 1 nan) s)
   | .cyl .. => none
   | .cubew => some (cubeWeldedPos (sc.getD 0 nan) (sc.getD 1 nan) (sc.getD 2 nan))
-  | .cubeq => some (cubeQuadsPos (sc.getD 0 nan) (sc.getD 1 nan) (sc.getD 2 nan))
+  | .cubeq => some (cubeQuadsPosCode (sc.getD 0 nan) (sc.getD 1 nan) (sc.getD 2 nan))
 
 def modelNrm (k : Kind) (sc : Array Float) : Option (Nat → V3 Float) :=
   match k with
   | .sphere r c => some (uvSphereNormal (sc.getD 0 nan) r c)
-  | .cyl s false false => some (cylinderNormal s)
+  | .cyl s false false => some (cylinderNormalCode s)
   | .cubew => some (cubeWeldedNormal (sc.getD 0 nan) (sc.getD 1 nan) (sc.getD 2 nan))
-  | .cubeq => some cubeQuadsNormal
+  | .cubeq => some cubeQuadsNormalCode
   | _ => none
 
 /-- the model's merge map as `Nat` labels of the vertices `0..nv-1`, with a bound on the labels;
